@@ -1,7 +1,8 @@
 """C15 - generated code is a pure function of the request; caching is invisible (DESIGN.md section 3, C15)."""
 import sys
 from ..common import run_check
-from ..srules import determinism
+from ..srules import determinism, tensorapi
+from ..srules.core import SourceIndex
 
 
 def main(ctx):
@@ -13,13 +14,18 @@ def main(ctx):
         "module-level mutable state; counters created per request); (4) cache-key completeness: lru_cache keyed by (Problem, "
         "backend), Problem.__eq__/__hash__ over assignment and the ordered formats, every class reachable through the key has "
         "generated equality over all fields or is an Enum, TensorMethod.__init__ reads only its parameters; (5) CLI dataflow: "
-        "the text printed/written is the Success payload of generate_code(problem, kernel_types, language) unmodified."
+        "the text printed/written is the Success payload of generate_code(problem, kernel_types, language) unmodified; (6) "
+        "make_problem evaluated abstractly: the format table of the Problem is ordered by the assignment's tensors whatever order "
+        "the caller listed the formats in (parameter order and cache key are canonical)."
     )
     ctx.assumptions = [
         "iteration order of builtin set is hash-dependent, of dict insertion-ordered; functools.lru_cache is thread-safe and keyed by __eq__/__hash__",
         "byte-equality across processes of llvmlite's own printing is outside the repository",
     ]
     determinism.run(ctx)
+    # the request -> Problem step is canonical: make_problem orders the format table by the assignment, whatever order
+    # the caller listed the formats in (abstract evaluation; the rule is shared with C10)
+    tensorapi.rule_problem_validation(ctx, SourceIndex(ctx.src))
 
 
 if __name__ == "__main__":
